@@ -115,6 +115,55 @@ def dynamic_walk(sim, memory, acc, base, rng):
     return None
 
 
+def follows_oracle(sim, memory, acc, base, rng):
+    """The fast-forward condition of `_read_port` / C `read_port` against the loop itself: with the tape level of
+    edge-index parity p on the port (bit 6: 0 for even, 1 for odd indexes) and the EAR register holding `earv`,
+    the real simulator goes round the loop back to its IN exactly when the table entry (ear, ear_mask, polarity)
+    says the accelerator may skip iterations.  Returns [(p, earv, loops_back, table_says)] where they differ."""
+    code = fill_signature(acc, base, rng)
+    for k, b in enumerate(code):
+        memory[(base + k) % 65536] = b
+    pc0 = base + acc.c0
+    bad = []
+    for p, value in ((0, 191), (1, 255)):
+        for earv in ((0, acc.ear_mask) if acc.ear_mask else (0,)):
+            regs = sim.registers
+            for i in range(24):
+                regs[i] = 0
+            regs[12] = 0xFF00
+            regs[acc.counter] = 100
+            if acc.ear_mask:
+                if acc.ear == acc.counter:
+                    regs[acc.counter] = (100 & ~acc.ear_mask & 0xFF) | earv
+                else:
+                    regs[acc.ear] = earv
+            else:
+                regs[2] = regs[6] = 0x40          # audiogenic: B is the mask; gremlin2: H
+                regs[acc.counter] = 100
+            if acc.name == 'activision':
+                regs[3] = 0xFE
+            regs[15] = 5
+            regs[24], regs[25], regs[26], regs[27], regs[28] = pc0, 1000, 0, 1, 0
+            sim.set_tracer(ConstTracer(value), True, False)
+            pc = pc0
+            back = False
+            for _ in range(25):
+                sim.run(pc)
+                pc = regs[24]
+                if pc == pc0:
+                    back = True
+                    break
+                if not base <= pc < base + len(code):
+                    break
+            if acc.ear_mask:
+                says = (earv & acc.ear_mask) == ((p - acc.polarity) % 2) * acc.ear_mask
+            else:
+                says = bool((p - acc.polarity) % 2)
+            if back != says:
+                bad.append((p, earv, back, says))
+    return bad
+
+
 def walks(chk, loadsample, classes, use_driver=True):
     """`walk <name>` (static, through the generated dispatch tables) vs the real simulators."""
     rng = chk.rng
@@ -149,6 +198,17 @@ def walks(chk, loadsample, classes, use_driver=True):
                 chk.violation(f'accelerator-entry-wrong:{n}',
                               f'ACCELERATORS[{n!r}] claims loop_time={acc.loop_time} loop_r_inc={acc.loop_r_inc} inc={acc.inc}; '
                               f'{sname} executes one iteration in {dt} T-states, R += {dr}, counter {dc - 256 if dc > 127 else dc:+d}',
+                              {'kind': 'walk', 'name': n})
+            # ... and the loop goes on sampling exactly while the entry's (ear, ear_mask, polarity) say no edge was seen
+            fb = follows_oracle(sim, mem, acc, base, rng)
+            chk.case('walk:ear-polarity', ('walk-ear', n, sname))
+            if fb:
+                p, earv, back, says = fb[0]
+                chk.violation(f'accelerator-entry-ear-wrong:{n}',
+                              f'ACCELERATORS[{n!r}] claims ear={acc.ear} ear_mask={acc.ear_mask:#x} polarity={acc.polarity}: with the tape level of an '
+                              f'{"odd" if p else "even"} edge index on port 0xFE and the EAR register = {earv:#x}, {sname} '
+                              f'{"goes round the loop again" if back else "leaves the loop"} but the accelerator would '
+                              f'{"fast-forward" if says else "not fast-forward"} ({len(fb)} of the 4 level/register combinations disagree)',
                               {'kind': 'walk', 'name': n})
     if not use_driver:
         return
@@ -509,7 +569,10 @@ def gen_case(rng, accs_by_name, is_c, kind):
         for k, b in enumerate(ins):
             mem[(pc + k) % 65536] = b
     if t is None:
-        d = rng.choice((-4000, -3501, -3500, -3499, -60, -12, -11, -10, -5, -4, -1, 0, 1, 4, 11, 100, rng.randrange(-5000, 5000)))
+        # (3486..3501 after the edge: the 1 ms allowance after the final edge of the tape, `tstates - edges[index] > 3500`, with the
+        #  clock taken after an instruction of 4..13 T-states)
+        d = rng.choice((-4000, -3501, -3500, -3499, -60, -12, -11, -10, -5, -4, -1, 0, 1, 4, 11, 100, 3486 + rng.randrange(17), 3486 + rng.randrange(17),
+                        rng.randrange(-5000, 5000)))
         ref = rng.choice((next_edge, edges[index], edges[-1], edges[min(block_end + 1, max_index)]))
         t = max(ref + d, 0)
     if is_c and t < edges[index]:
@@ -540,6 +603,125 @@ def interrupt_possible(case):
     return case['fields'][2] != 0
 
 
+def neutral_case(pc, t, mem, regs=None):
+    """A load-loop state in which nothing happens unless a field is set: tape of 4 edges in one block, not running."""
+    regs = list(regs) if regs else [0] * 24
+    if not regs[12]:
+        regs[12] = 0xFF00
+    return {'kind': 'plain', 'edges': [1000, 3000, 5000, 7000], 'blocks': [(0, 3, [1, 2], True, False)],
+            'ts': [3000, 0, 0, 3, 0, 0, 0, 0, 0, 0, 0, 0, 0], 'regs': regs, 'fields': [pc, t, 0, 1, 0, 0],
+            'mem': dict(mem), 'acc_names': [], 'accel_dec_a': 0, 'fast_load': 0, 'finish_tape': 0, 'timeout': 0,
+            'stop': None, 'in_r_c': 0, 'pause': True, 'in_min_addr': 0x8000, 'fd': 69888, 'ia': 32,
+            'out7ffd': 0x10, 'out7ffd_eff': 0x10, 'outfffd': 0}
+
+
+def counter_limit_cases(rng, accs):
+    """Directed, every run: tape-sampling loops whose counter is about to run out when the next edge is still far away -
+    the fast-forward must stop one iteration short of the counter wrapping (INC) / reaching zero (DEC).  Both DEC-counting
+    shapes of the table and three INC-counting ones x counters at the limit x distances of room-1 .. room+2 iterations."""
+    cases = []
+    for name in ('digital-integration', 'software-projects', 'rom', 'speedlock', 'microsphere'):
+        a = accs.get(name)
+        if a is None or not a.ear_mask or a.ear == a.counter:
+            continue
+        L = a.loop_time
+        for ctr in ((252, 253, 254, 255, 0, 128) if a.inc else (0, 1, 2, 3, 255, 128)):
+            room = (255 - ctr) if a.inc else max(ctr - 1, 0)
+            for delta in (room * L - 1, room * L, room * L + 1, (room + 1) * L, (room + 2) * L + 3, 400 * L):
+                if delta < 1:
+                    continue
+                base = 0x9000
+                code = fill_signature(a, base, rng)
+                mem = {base + k: b for k, b in enumerate(code)}
+                regs = [rng.randrange(256) for _ in range(24)]
+                regs[12], regs[13] = 0xFF00, 0
+                regs[a.counter] = ctr
+                level = (0 - a.polarity) % 2
+                regs[a.ear] = (regs[a.ear] & ~a.ear_mask & 0xFF) | (level * a.ear_mask)
+                G = 500 * L
+                case = neutral_case(base + a.c0, 0, mem, regs)
+                case['kind'] = 'tsl'
+                case['edges'] = [1000, 1000 + G, 1000 + 2 * G, 1000 + 3 * G]
+                case['ts'] = [1000 + G, 0, 0, 3, 1, 0, 0, 0, 0, 0, 0, 0, 0]
+                case['fields'][1] = 1000 + G - delta
+                case['acc_names'] = [name]
+                case['in_min_addr'] = 0x4000
+                cases.append(case)
+    return cases
+
+
+def stop_boundary_cases():
+    """Directed, every run: tape ended, no stop address, no custom loader seen - the simulation stops once PC is in RAM
+    (PC > 0x3FFF): jumps to 0x3FFF / 0x4000 / 0x4001, and 'tape ended 1 second ago' at 3500000 +-1."""
+    cases = []
+    for target in (0x3FFF, 0x4000, 0x4001):
+        case = neutral_case(0x3000, 50000, {0x3000: 0xC3, 0x3001: target % 256, 0x3002: target // 256})
+        case['ts'][2], case['ts'][6] = 1, 49000
+        cases.append(case)
+    for late in (3499999, 3500000, 3500001):
+        case = neutral_case(0x3000, 100000 + late - 4, {0x3000: 0x00})
+        case['ts'][2], case['ts'][6] = 1, 100000
+        cases.append(case)
+    return cases
+
+
+def int_cases(rng):
+    """Load-loop runs of a dozen iterations across a frame boundary with interrupts enabled (tape stopped, NOPs / EI / DI in
+    RAM, IM 1 with an empty ROM or IM 2 with a vector in RAM): where and whether the frame interrupt is accepted."""
+    fd, ia = 69888, 32
+    cases = []
+    for frame in (1, 83):
+        for off in range(-26, 46):
+            for variant in ('nop', 'ei', 'im2'):
+                t = frame * fd + off
+                pc = 0x8000
+                mem = {}
+                im = 1
+                regs = [0] * 24
+                regs[12] = 0xFF00
+                if variant == 'ei':
+                    mem[pc] = 0xF3                      # DI; NOP; EI; NOP; NOP; EI; NOP ...
+                    mem[pc + 2] = 0xFB
+                    mem[pc + 5] = 0xFB
+                elif variant == 'im2':
+                    im = 2
+                    regs[14] = 0x90
+                    mem[0x90FF], mem[0x9100] = 0x00, 0xA0  # vector -> 0xA000: EI; RET
+                    mem[0xA000], mem[0xA001] = 0xFB, 0xC9
+                cases.append({
+                    'kind': 'int', 'edges': [0, 2168, 4336], 'blocks': [(0, 2, [1, 2], True, False)],
+                    'ts': [2168, 0, 0, 2, 0, 0, 0, 0, 0, 0, 0, 0, 0], 'regs': regs, 'fields': [pc, t, 1 if variant != 'ei' else rng.randrange(2), im, 0, 0],
+                    'mem': mem, 'acc_names': [], 'accel_dec_a': 0, 'fast_load': 0, 'finish_tape': 0, 'timeout': t + 90,
+                    'stop': None, 'in_r_c': 0, 'pause': True, 'in_min_addr': 0x8000, 'fd': fd, 'ia': ia,
+                    'out7ffd': 0x10, 'out7ffd_eff': 0x10, 'outfffd': 0, 'variant': variant, 'off': off})
+    return cases
+
+
+def int_lsteps(chk, loadtracer, loadsample, tape, classes):
+    """Interrupts accepted while a LOAD is simulated are not in the Lean model of the load loop; the two real load loops
+    (LoadTracer.run in Python, CSimulator.load in C) are run against each other instead: from the same state, across a frame
+    boundary, they must do the same thing (the property's "choosing the C or Python simulator")."""
+    cls = dict(classes)
+    if 'py-plain' not in cls or 'c-plain' not in cls:
+        return
+    cases = int_cases(chk.rng)
+    rigs = {n: LoadRig(n, cls[n], loadtracer, tape, n.startswith('c')) for n in ('py-plain', 'c-plain')}
+    res = {}
+    for n, rig in rigs.items():
+        r = run_cases_isolated(rig, cases, {}) if rig.is_c else run_cases(rig, cases, {})
+        res[n] = [' '.join(o.split()) for o, _ in r]
+    for case, a, b in zip(cases, res['py-plain'], res['c-plain']):
+        chk.case(f"lstep-int:{case['variant']}", ('lstep-int', case['variant'], case['fields'][1], case['fields'][2]),
+                 {'kind': 'load loop across a frame boundary, Python vs C', 'variant': case['variant'], 'T': case['fields'][1], 'py': a[:120]}
+                 if case['off'] == 0 and case['fields'][1] < 100000 else None)
+        if a != b:
+            chk.violation(f"load-loop-interrupt:c-vs-python:{case['variant']}",
+                          f"LoadTracer.run (Python simulator) and CSimulator.load differ after running from T={case['fields'][1]} "
+                          f"(frame boundary {case['off']:+d}) for 90 T-states with IFF={case['fields'][2]} IM={case['fields'][3]} "
+                          f"({case['variant']}): python `{a[:200]}` / C `{b[:200]}`",
+                          {'kind': 'lstep-int', 'case': {k: v for k, v in case.items()}})
+
+
 def lsteps(chk, loadtracer, loadsample, tape, classes):
     rng = chk.rng
     accs = {n: loadsample.Accelerator(*a) for n, a in loadsample.ACCELERATORS.items()}
@@ -552,12 +734,44 @@ def lsteps(chk, loadtracer, loadsample, tape, classes):
         ops, impl, tags, cases = [], [], [], []
         # directed DEC A group, every run: both loop shapes x boundary values of A (0 counts as 256) x every
         # accelerate-dec-a setting, interrupts disabled (the hook's precondition)
-        directed = [(form, a, acc) for form in ('jr', 'jp') for a in (0, 1, 2, 0x7F, 0x80, 0xFF) for acc in (1, 2, 3)]
-        for i in range(n_cases + len(directed)):
-            kind = ('tsl', 'tsl', 'tsl', 'deca', 'plain', 'port')[i % 6] if i < n_cases else 'deca'
+        directed = [(form, a, acc, None) for form in ('jr', 'jp') for a in (0, 1, 2, 0x7F, 0x80, 0xFF) for acc in (1, 2, 3)]
+        # ... and the loop placed across the 64K wrap (the addresses of its operand bytes and of the exit are taken mod 65536)
+        directed += [(form, a, 3, pc) for form in ('jr', 'jp') for pc, a in ((0xFFFB, 3), (0xFFFC, 0), (0xFFFD, 1), (0xFFFE, 0x80), (0xFFFF, 2))]
+        # directed end-of-tape group, every run: the tape is stopped once the clock is more than 3500 T-states past its final
+        # edge; a NOP ending 3499..3502 T-states after it, tape running, on the last edge
+        tape_end = [(delta, stop_set) for delta in (-1, 0, 1, 2) for stop_set in (0, 1)]
+        ready_made = counter_limit_cases(rng, accs) + stop_boundary_cases()
+        for i in range(n_cases + len(directed) + len(tape_end) + len(ready_made)):
+            kind = ('tsl', 'tsl', 'tsl', 'deca', 'plain', 'port')[i % 6] if i < n_cases else ('deca' if i < n_cases + len(directed) else 'plain')
+            if i >= n_cases + len(directed) + len(tape_end):
+                cases.append(ready_made[i - n_cases - len(directed) - len(tape_end)])
+                continue
             case = gen_case(rng, accs, is_c, kind)
-            if i >= n_cases:
-                form, a, acc = directed[i - n_cases]
+            if i >= n_cases + len(directed):
+                delta, stop_set = tape_end[i - n_cases - len(directed)]
+                pc = case['fields'][0]
+                for k in range(0, 4):
+                    case['mem'].pop((pc + k) % 65536, None)
+                case['mem'][pc] = 0x00
+                last = len(case['edges']) - 1
+                case['ts'][0] = case['edges'][last]          # next edge: already behind the clock
+                case['ts'][1] = last
+                case['ts'][2] = 0
+                case['ts'][3] = max(case['ts'][3], last) if stop_set else case['ts'][3]
+                case['ts'][4] = 1
+                case['ts'][7] = 0
+                case['fields'][1] = case['edges'][last] + 3500 - 4 + delta
+                case['fields'][2] = 0
+                case['stop'] = 0x9000 if stop_set else None
+                case['accel_dec_a'] = 0
+            elif i >= n_cases:
+                form, a, acc, at = directed[i - n_cases]
+                if at is not None:
+                    for k in range(0, 4):
+                        case['mem'].pop((case['fields'][0] + k) % 65536, None)
+                    case['fields'][0] = at
+                    if case['stop'] is not None:
+                        case['stop'] = 0x9000
                 pc = case['fields'][0]
                 for k in range(1, 4):
                     case['mem'].pop((pc + k) % 65536, None)
